@@ -203,6 +203,7 @@ def bi_str_split_inclusive(eng, st, args, d, r, callee=''):
 def bi_str_lines(eng, st, args, d, r, callee=''):
     parts = sval(args[0]).split('\n')
     if parts and parts[-1] == '': parts = parts[:-1]
+    parts = [p[:-1] if p.endswith('\r') else p for p in parts]      # str::lines strips a trailing carriage return
     return ('value', Agg('VecIntoIter', (VecV(S(len(parts), 'usize'), len(parts), [PyStr(p) for p in parts]), S(0, 'usize'))))
 
 def bi_slice_split_last(eng, st, args, d, r, callee=''):
@@ -225,8 +226,57 @@ def bi_slice_first(eng, st, args, d, r, callee=''):
     if v.len.v == 0: return ('value', En('Option', S(0, 'isize'), {0: ()}))
     return ('value', En('Option', S(1, 'isize'), {1: (Ref(rf.cell, rf.path + (('i', S(0, 'usize')),)),)}))
 
+def _as_str_value(eng, st, a):
+    """&str / &String / String argument -> StrV"""
+    v = a
+    while isinstance(v, Ref): v = eng.deref(st, v)
+    if isinstance(v, Agg) and v.ty == 'String': v = v.f[0]
+    return v if isinstance(v, StrV) else a
+
+def strargs(fn):
+    def w(eng, st, args, d, r, callee=''):
+        return fn(eng, st, [_as_str_value(eng, st, a) for a in args], d, r, callee=callee)
+    return w
+
+# ---- String as a growable text cell: Agg('String', (PyStr,))
+def _string_ref(args):
+    r = args[0]
+    assert isinstance(r, Ref), r
+    return r
+def bi_string_new(eng, st, args, d, r, callee=''): return ('value', Agg('String', (PyStr(''),)))
+def bi_string_push_str(eng, st, args, d, r, callee=''):
+    rf = _string_ref(args); cur = eng.deref(st, rf)
+    add = _as_str_value(eng, st, args[1])
+    text = chr(add.v) if isinstance(add, S) else sval(add)
+    eng.store_ref(st, rf, Agg('String', (PyStr(sval(cur.f[0]) + text),)))
+    return ('value', ok_unit() if callee.endswith('write_str') or callee.endswith('write_char') else UNIT)
+def bi_string_deref(eng, st, args, d, r, callee=''):
+    rf = _string_ref(args)
+    return ('value', Ref(rf.cell, rf.path + (('f', 0),)))
+def bi_string_len(eng, st, args, d, r, callee=''): return ('value', S(len(sval(_as_str_value(eng, st, args[0])).encode()), 'usize'))
+def bi_string_is_empty(eng, st, args, d, r, callee=''): return ('value', S(len(sval(_as_str_value(eng, st, args[0]))) == 0, 'bool'))
+def bi_string_clear(eng, st, args, d, r, callee=''):
+    eng.store_ref(st, _string_ref(args), Agg('String', (PyStr(''),))); return ('value', UNIT)
+
+def bi_write_char_default(eng, st, args, d, r, callee=''):
+    """fmt::Write::write_char default method: self.write_str(c.encode_utf8(..))"""
+    w, c = args
+    head = eng.runtime_head(w, st)
+    cands = [f for (t, f) in eng.prog.methods.get((head, 'write_str'), [])]
+    text = PyStr(chr(c.v))
+    if cands:
+        eng.push_call(st, cands[0], [w, text], d, r); return ('pushed', None)
+    b = E.BUILTIN_METHODS.get((head, 'write_str'))
+    if b: return b(eng, st, [w, text], d, r, callee='write_str')
+    raise Unsupported('write_char on ' + str(head))
+
 def install():
     B = E.BUILTIN_METHODS
+    B[('String', 'new')] = bi_string_new; B[('String', 'push_str')] = bi_string_push_str; B[('String', 'push')] = bi_string_push_str
+    B[('String', 'write_str')] = bi_string_push_str; B[('String', 'write_char')] = bi_string_push_str
+    B[('String', 'deref')] = bi_string_deref; B[('String', 'as_str')] = bi_string_deref; B[('String', 'len')] = bi_string_len
+    B[('String', 'is_empty')] = bi_string_is_empty; B[('String', 'clear')] = bi_string_clear; B[('String', 'with_capacity')] = bi_string_new
+    B[('Write', 'write_char')] = bi_write_char_default
     B[('str', 'split_inclusive')] = bi_str_split_inclusive; B[('str', 'lines')] = bi_str_lines; B[('str', 'clone')] = E.bi_clone
     B[('Vec', 'last_mut')] = bi_slice_last
     B[('str', 'eq')] = bi_str_eq; B[('str', 'ne')] = bi_str_ne
@@ -236,7 +286,10 @@ def install():
     B[('str', 'split_once')] = bi_str_split_once
     B[('str', 'is_empty')] = bi_str_is_empty; B[('str', 'len')] = bi_str_len; B[('str', 'find')] = bi_str_find
     B[('str', 'index')] = bi_str_index
-    B[('Formatter', 'write_str')] = bi_fmt_write_str; B[('Formatter', 'write_char')] = bi_fmt_write_char
+    for k_ in list(B):
+        if k_[0] == 'str' and k_[1] != 'clone' and not getattr(B[k_], '_wrapped', False):
+            B[k_] = strargs(B[k_]); B[k_]._wrapped = True
+    B[('Formatter', 'write_str')] = strargs(bi_fmt_write_str); B[('Formatter', 'write_char')] = bi_fmt_write_char
     B[('Formatter', 'alternate')] = bi_fmt_alternate
     B[('Arguments', 'new')] = bi_arguments_new; B[('Argument', 'new_display')] = bi_argument_new; B[('Argument', 'new_debug')] = bi_argument_new
     B[('Write', 'write_fmt')] = bi_write_fmt; B[('Formatter', 'write_fmt')] = bi_formatter_write_fmt
